@@ -35,6 +35,11 @@ def run(ctx):
             ctx.fail("infra", "generator coverage", "never exercised: %s" % missing)
         if st.get("unauthorized.ok", 0) or st.get("unauthorized.panic", 0):
             pass  # reported by the owner_only oracle
+    # directed two-validator histories (walk order of the per-validator unbonding records), oracle only
+    res2 = fw.corr(ctx, "lockup2", 60 if ctx.thorough() else 6, driver_suite=False)
+    fw.report_corr(ctx, "lockup2", res2, feats)
+    if res2 and res2["stats"].get("lockup2.paid_back_before_second_matures", 0) == 0:
+        ctx.fail("infra", "generator coverage", "lockup2 never reached the state 'first unbonding paid back, second pending'")
     # kernel statements on concrete operands (cheap when the proofs hold; the failing-input search when they do not)
     bad = fw.pred_search(ctx, "C12", (4000 if ctx.thorough() else 600) if ok else 20000)
     if bad:
